@@ -201,6 +201,9 @@ def _check_rows(model, table, ph, rows, ta, tol, enabled, out, stats):
         # ---------- neighbours
         if k != "Source":
             exp_vin = rows[par]["Vout (V)"] if par is not None else 0.0
+            if "C03" in E and "C01" not in E and "C05" not in E and vin != exp_vin:
+                out.append(("C03", "steady-state-vin-is-feeder-vout", "phase %r %s: Vin=%r, feeder %r Vout=%r" % (ph, n, vin, par, exp_vin)))
+                return
             if "C01" in E and k != "PMux" and vin != exp_vin:
                 out.append(("C01", "vin-equals-parent-vout", "phase %r %s: Vin=%r parent %s Vout=%r" % (ph, n, vin, par, exp_vin)))
                 return
@@ -228,11 +231,14 @@ def _check_rows(model, table, ph, rows, ta, tol, enabled, out, stats):
                     out.append(("C01", "parent-cell", "phase %r %s: cell %r want %r" % (ph, n, cell, want)))
                     return
         ei = expected_iout(model, rows, n)
-        if ei is not None and ("C01" in E or "C05" in E):
+        if ei is not None and ("C01" in E or "C05" in E or "C03" in E):
             ok = abs(iout - ei) <= (tol.i(max(abs(ei), abs(iout))) if k == "Source" else 1e-12 + 1e-9 * abs(ei))
             if not ok:
                 hasmux = any(len(model.parents[c]) > 1 for c in model.children(n))
                 pid = "C05" if (hasmux and "C05" in E) else "C01"
+                if pid not in E and "C03" in E:
+                    out.append(("C03", "steady-state-iout-is-sum-of-children", "phase %r %s: Iout=%r children sum=%r" % (ph, n, iout, ei)))
+                    return
                 if pid in E:
                     out.append((pid, "iout-equals-sum-of-children-iin", "phase %r %s: Iout=%r children sum=%r" % (ph, n, iout, ei)))
                     return
